@@ -37,6 +37,13 @@ CHECKS = {
             'raise asn1tools.DecodeError (not return a value, not raise a foreign exception)',
             'assumes the encoders emit no byte their own decoder does not need (argued in DESIGN.md C16)',
             'property-based testing (Hypothesis), exhaustive prefix enumeration per case'),
+    'C19': ('hypothesis', 'exploration',
+            'generated module sets x meaning-preserving re-arrangements (permute assignments/modules, move a '
+            'definition into a new module with IMPORTS, inline a reference at a member, extract an inline member '
+            'type) x probe values x 8 codecs: identical bytes, decoded values and error classes',
+            're-arrangements are applied only where tag default, extensibility default and automatic tagging of '
+            'the container are unaffected; behaviour observed on generated probe values',
+            'metamorphic property-based testing (Hypothesis)'),
 }
 
 ALL = ['C%02d' % i for i in range(1, 21)]
